@@ -443,9 +443,10 @@ def check_c09(graph, result):
             if (b.get(key) or 0) != want:
                 return {"what": f"{key} differs after read-back", "position": k, "written_for": d.get(key), "read": b.get(key), "text": result[:1500]}
         for key in ("x_coord", "y_coord", "z_coord"):
-            want = float(f"{d.get(key, 0):.6f}")
-            got = float(f"{b[key]:.6f}")  # "to six decimals": a writer that keeps more digits is not a violation
-            if not (got == want):
+            want = float(d.get(key, 0))
+            got = b[key]
+            # "to six decimals": the value read back may differ from the written one by half a unit of the sixth decimal (plus float spacing)
+            if not (abs(got - want) <= 0.5e-6 * (1 + 1e-9) + 2 * math.ulp(max(abs(got), abs(want)))):
                 return {"what": "coordinate differs after read-back (six decimals)", "position": k, "key": key, "want": want, "got": got, "text": result[:1500]}
     ein = {frozenset((pos[u], pos[v])): d.get("bond_type", 1) for u, v, d in graph.edges(data=True)}
     eout = {frozenset((u, v)): d.get("bond_type") for u, v, d in back.edges(data=True)}
